@@ -173,6 +173,8 @@ def check(run):
         sp_ = random_basis(rng, 1, 2, lmax=2)
         one_case(run, sp_, points_for(rng, sp_, 3), o, dt, via_class=(k % 2 == 1), runtime_name=True)
         run.count("back-end name given as a run-time string")
+    from checks import c09 as _c09
+    _c09.positional_arguments_case(run, rng, only=('evaluate_basis', 'evaluate_deriv_basis'))
     batch_independence(run)
 
 
@@ -221,6 +223,11 @@ def representation_cases(run):
 
 
 def replay(run, rep):
+    if rep.get("case") == "positional":
+        from checks import c09 as _c09
+        n0_ = len(run.violations)
+        _c09.positional_arguments_case(run, run.rng, only=('evaluate_basis', 'evaluate_deriv_basis'))
+        return len(run.violations) == n0_
     n0 = len(run.violations)
     if rep.get("case") == "representation":
         representation_cases(run)
